@@ -36,6 +36,8 @@ import PV.Driver.AnalysisHistOps
 import PV.Driver.OpsSyntaxOps
 import PV.Driver.CCodeProgOps
 import PV.Driver.MemoArgsOps
+import PV.Driver.RationalOps
+import PV.Driver.SymFftOps
 /-
   Driver operations: one request S-expression in, one reply S-expression out.
 -/
@@ -244,6 +246,8 @@ def handlers : List (Sexp → Option Sexp) :=
    , handleOpsSyntax
    , handleCCodeProg
    , handleMemoArgs
+   , handleRational
+   , handleSymFft
    -- HANDLERS
   ]
 
